@@ -83,6 +83,8 @@ type hop struct {
 
 func (o hop) String() string {
 	switch o.K {
+	case "latepass":
+		return "latepass(+" + o.D.String() + ")"
 	case "adv":
 		return "adv(" + o.D.String() + ")"
 	case "capture", "release", "dhcpframe":
@@ -145,6 +147,9 @@ func randHop(r *rand.Rand, d deadlines) hop {
 		return hop{K: []string{"capture", "release"}[r.Intn(2)], M: 1 + r.Intn(3)}
 	case c < 17:
 		return hop{K: "offer", M: 2 + r.Intn(2), I: r.Intn(3), N: r.Intn(3)}
+	}
+	if r.Intn(8) == 0 {
+		return hop{K: "latepass", D: []time.Duration{d.offline + time.Minute, d.purge + time.Minute, 3 * d.purge}[r.Intn(3)]}
 	}
 	return hop{K: "adv", D: []time.Duration{20 * time.Second, time.Minute, d.probe + time.Minute, d.offline + time.Minute, d.purge + time.Minute}[r.Intn(5)]}
 }
@@ -372,6 +377,16 @@ func (hr *hostsRun) history() {
 			case "offer":
 				s.SetDHCPv4IPOffer(net.HardwareAddr(mac[:]), ip, uName("dhcp4", o.N))
 				m.SetOffer(model.MAC(mac[:]), ip)
+			case "latepass":
+				// one ageing pass that runs late - its clock is past the offline (and perhaps the purge) deadline of hosts that
+				// are still online: they go offline in this pass, with their notification, and are deleted by a later one
+				t := time.Now().Add(o.D)
+				s.VerifPurge(t)
+				synctest.Wait()
+				if g := m.TickAt(t); len(g) > 0 {
+					want = []model.Group{g}
+				}
+				c.Obs("late_ageing_passes", 1)
 			case "adv":
 				time.Sleep(o.D)
 				synctest.Wait()
